@@ -31,7 +31,7 @@ def deser_impls(F):
     return [im for im in F.impls if im.get('trait') in DESER and im['self']['k'] == 'adt' and im['self']['path'] in F.adts]
 
 
-def sites_clause(chk, F, A):
+def sites_clause(chk, F, A, base_fns=None):
     cfg = F.cfg
     impls = deser_impls(F)
     have = {im['self']['path'] for im in impls}
@@ -82,6 +82,36 @@ def sites_clause(chk, F, A):
         chk.ob(key, 'deserialization construction site', status, subject=site_subject(F, sites[0]),
                expected='operands establish the invariant of %s, or construction goes through a validating TryFrom' % short,
                found=found or ['%d sites' % len(sites)], why=why)
+    # validating conversions that exist only in the serde configuration (the targets of serde(try_from = ...)):
+    # their construction sites are where the invariant must be re-established
+    base = base_fns or set()
+    conv_sites = [(st, p, v) for st, p, v in scan.aggregate_sites(F, TRACKED)
+                  if not scan.is_serde_generated(F, st[0]) and st[0] not in base]
+    groups = {}
+    for st, p, v in conv_sites:
+        groups.setdefault((st[0], p), []).append(st)
+    for (fnk, p), sites in sorted(groups.items()):
+        short = short_ty(p)
+        status, why, found = 'proved', '', []
+        for site in sites:
+            obs = A.ctor.get(site, [])
+            at = site_subject(F, site).get('at')
+            if not obs:
+                status, why = 'unproven', 'site at %s not reached by the audit' % at
+            for (pp, variant, fields, extra, stack) in obs:
+                if p in midi.PATH_NEWTYPE:
+                    v0 = fields[0] if fields else None
+                    if v0 is None or not v0.subset(VS(0, midi.NEWTYPE_MAX[short])):
+                        status, why = 'refuted', '%s built from a value in %r at %s' % (short, v0, at)
+                elif extra is not None:
+                    ok, txt = extra
+                    found.append(txt)
+                    if ok is None and status != 'refuted':
+                        status, why = 'unproven', txt
+                    elif ok is False:
+                        status, why = 'refuted', 'the conversion used for deserialization lets through a value no constructor can build: %s (at %s)' % (txt, at)
+        chk.ob('%s/deser-conversion-site/%s/%s' % (PID, cfg, fnk), 'deserialization construction site', status, subject=site_subject(F, sites[0]),
+               expected='the validating conversion establishes the invariant of %s' % short, found=found[:2], why=why)
     # unsafe constructor calls inside generated code
     for site, lst in A.unsafe_calls.items():
         if not scan.is_serde_generated(F, site[0]):
@@ -125,11 +155,14 @@ def run(tier, cmd):
                             'construction-site audit of the generated code; StructuredShortMessage, TimeCodeQuarterFrame and the enums because their '
                             'validity is the validity of their (audited) fields and no unsafe construct exists. Not decided: the round-trip '
                             'clause (serde data model at run time); only its shape condition is checked.')
-    cfgs = ['K3'] + (['K4'] if tier == 'thorough' else [])
+    cfgs = ['K1', 'K3'] + (['K2', 'K4'] if tier == 'thorough' else [])
     Fs = load_configs(chk, cfgs, required=('K3',))
+    bases = {'K3': set(Fs['K1'].fns) if 'K1' in Fs else None, 'K4': set(Fs['K2'].fns) if 'K2' in Fs else None}
     for cfg, F in sorted(Fs.items()):
+        if cfg in ('K1', 'K2'):
+            continue
         A = guarded(chk, '%s/audit/%s' % (PID, cfg), 'deserialization construction site', lambda F=F: audit.get(F))
         if A is not None:
             chk.extra.setdefault('functions_interpreted', {})[cfg] = len(A.fns_entered)
-            guarded(chk, '%s/sites/%s' % (PID, cfg), 'deserialization construction site', lambda F=F, A=A: sites_clause(chk, F, A))
+            guarded(chk, '%s/sites/%s' % (PID, cfg), 'deserialization construction site', lambda F=F, A=A: sites_clause(chk, F, A, bases.get(F.cfg)))
     return chk.finish()
